@@ -145,8 +145,10 @@ def build_world(repo_root="/repo") -> World:
 
     for m in (c_cursor, c_cli, c_types, c_server, c_checks, c_conn, c_variables, c_info_schema, c_cursor_exec):
         m.install(w)
+    c_conn.install_methods(w)
     c_cursor_exec.install_execute(w)
     c_cursor_exec.install_execute2(w)
+    c_cursor_exec.install_describe(w)
     return w
 
 
